@@ -1422,6 +1422,58 @@ Section Flat.
       destruct (add_newline (page_result (body_subst ht (t_body t)))); reflexivity.
     - cbn. reflexivity.
   Qed.
+
+  (** Calls in the arguments and calls in the body together. *)
+  Theorem two_level_call name args :
+    FlatCall.two_level_ok pfnames lib name args = true -> o_tfn opts = [] -> o_pfn opts = [] ->
+    exists F, forall fuel, (F <= fuel)%nat ->
+      expand_T fuel [FTitle] true (chars name :: args) = Some (FlatCall.two_level_result lib name args).
+  Proof.
+    intros Hok Htfn Hpfn.
+    unfold FlatCall.two_level_ok in Hok. repeat (apply andb_true_iff in Hok; destruct Hok as [Hok ?]).
+    assert (Hstrip : strip_i (chars name) = chars name).
+    { apply str_eqb_eq in Hok. rewrite <- (plain_chars_codes (strip_i (chars name))) by (apply plain_strip, plain_chars).
+      rewrite Hok. reflexivity. }
+    assert (Hcolon : existsb (N.eqb 58) name = false) by (match goal with X : negb _ = true |- _ => apply negb_true_iff in X; exact X end).
+    assert (Hpf : Expand.classify_pf pfnames (Expand.canon_pf pfnames name) = PfNone)
+      by (destruct (Expand.classify_pf pfnames (Expand.canon_pf pfnames name)); try discriminate; reflexivity).
+    assert (Hargs : forallb (nested_arg_ok name) args = true) by assumption.
+    assert (Hbody : forall t, find_tpl lib name = Some t -> body_calls_ok name (t_body t) = true).
+    { intros t Ht. match goal with X : match find_tpl lib name with _ => _ end = true |- _ => rewrite Ht in X; exact X end. }
+    destruct (build_args_nested name args Hargs Htfn Hpfn) as [B HB].
+    set (ht := bind_nested args 1 []).
+    assert (Hht : values_plain ht = true) by (apply (values_plain_nested name); [exact Hargs | reflexivity]).
+    assert (Hsecond : exists G, forall fuel, (G <= fuel)%nat -> forall t, find_tpl lib name = Some t ->
+              expand_recurse fuel [FTitle; FTemplate name] true (body_subst ht (marked_body (t_body t)))
+              = Some (page_result (body_subst ht (marked_body (t_body t))))).
+    { destruct (find_tpl lib name) as [t|] eqn:Et.
+      - destruct (body_subst_items name ht (marked_body (t_body t)) Hht (body_marked _ _ (Hbody t eq_refl))) as [Hi Hfr].
+        destruct (expand_items_at _ Hi Htfn Hpfn) as [G HG].
+        exists G. intros fuel Hf t' Ht'. inversion Ht'; subst t'. apply HG; [cbn; lia | exact Hfr | exact Hf].
+      - exists 0%nat. intros fuel _ t' Ht'. discriminate Ht'. }
+    destruct Hsecond as [G HG].
+    set (bsize := match find_tpl lib name with Some t => size2 (marked_body (t_body t)) | None => 0%nat end).
+    exists (length name + B + bsize + G + 10)%nat.
+    intros fuel Hf. destruct fuel as [|f]; [lia|].
+    rewrite expand_T_S. replace (Nat.leb 100 (length [FTitle])) with false by reflexivity.
+    rewrite (expand_recurse_plain pfnames lib opts (chars name) (plain_chars name)) by (unfold chars; rewrite map_length; lia).
+    cbv beta iota zeta. rewrite Hstrip, codes_chars.
+    rewrite (no_colon_index name 0 Hcolon).
+    rewrite Hpf. rewrite Hcolon. cbn [negb andb].
+    replace (detect_loop ([FTitle] ++ [FTemplate name])) with false by reflexivity.
+    change ([FTitle] ++ [FTemplate name]) with [FTitle; FTemplate name].
+    rewrite (HB f 1 []) by lia. fold ht.
+    rewrite Htfn, Hpfn. cbn [hook_ret find].
+    unfold FlatCall.two_level_result. fold ht.
+    destruct (find_tpl lib name) as [t|] eqn:Et.
+    - fold (marked_body (t_body t)).
+      rewrite (expand_args_body name (marked_body (t_body t)) (body_marked _ _ (Hbody t eq_refl))) by (unfold bsize in Hf; lia).
+      cbn [orb].
+      rewrite (HG f ltac:(lia) t eq_refl).
+      rewrite add_newline_marked_body.
+      destruct (add_newline (page_result (body_subst ht (t_body t)))); reflexivity.
+    - cbn. reflexivity.
+  Qed.
 End Flat.
 
 (** The deviation the code is known to have (c04:trailing-newline-dropped) is exactly the gap between the two
